@@ -1,11 +1,42 @@
 (* Property C12: the schema parser terminates with a resolved schema or a positioned error; it
-   never panics. *)
+   never panics.
+   `parse` is the model of idl.Parse as checked in (after the D7 fix), `parse_legacy` of the code
+   before it; both share every definition except parseFieldType's "no type specifier" branch. *)
 From Coq Require Import List NArith Bool.
-From Stef.Idl Require Import Lexer Ast Parser Resolve ResolveFacts.
+From Stef.Idl Require Import Lexer Ast Parser Resolve TokSpec SchemaSpec ResolveFacts ParseFacts.
 Import ListNotations.
 Open Scope N_scope.
 
-(* D7 (fixed): the parser as it was panics on a field without a type specifier *)
+(* D7 (fixed by ef5c1a7): before the fix the parser panicked on a field without a type specifier,
+   "package a\nstruct A root { x }" *)
 Theorem C12_no_panic_refuted_before_fix : exists input, parse_legacy input = OPanic PUnknownType.
 Proof. exact parse_legacy_panics. Qed.
 Print Assumptions C12_no_panic_refuted_before_fix.
+
+(* the parser never panics: none of the panic sites of computeRecursiveType, markRecursive,
+   SetRecursive is reachable, for any byte string *)
+Theorem C12_no_panic : forall input site, parse input <> OPanic site.
+Proof. exact parse_no_panic. Qed.
+Print Assumptions C12_no_panic.
+
+(* termination: every loop of lexer, parser, reference resolution, recursion marking and pruning
+   ends within the fuel the model gives it (number of runes / tokens / definitions), so `parse` is
+   a total function whose outcome is a schema or an error *)
+Theorem C12_total : forall input, parse input <> OFuel.
+Proof. exact parse_no_fuel. Qed.
+Print Assumptions C12_total.
+
+(* a returned schema: every type reference names a definition of the schema (and, top-level names
+   being unique, exactly one), field names are unique within each struct, every root struct has at
+   least one field *)
+Theorem C12_ok_resolved : forall input s w, parse input = OOk s w ->
+  sch_resolved s /\ NoDup (top_names s) /\ Forall struct_wf (i_structs s).
+Proof. exact parse_ok_resolved. Qed.
+Print Assumptions C12_ok_resolved.
+
+(* an error carries the start position of a token of the input: line and column at least 1, byte
+   offset within the input, line and column never ahead of the bytes consumed (old and new parser) *)
+Theorem C12_err_positioned : forall b input p m, parse_gen b input = OErr p m ->
+  (exists t, In t (tokenize input) /\ p = t_pos t) /\ pos_ok (N.of_nat (length input)) p.
+Proof. exact parse_gen_err_pos. Qed.
+Print Assumptions C12_err_positioned.
